@@ -44,6 +44,29 @@ Theorem C09_sound :
 Proof. intros V O eqv L alg W sfn WO. exact (schedule_value L WO). Qed.
 Print Assumptions C09_sound.
 
+(** Multi-element requests (slices, list indices) on ANY series name, after any history: the elements are
+    evaluated one after the other and each value is taken when it is evaluated ([run_multi]); every value
+    of the returned array denotes the interpretation of its element - also when the cache entry of an
+    earlier element of the same request is deleted while a later element is evaluated. *)
+Theorem C09_sound_slices :
+  forall (V : Type) (O : vops V) (eqv : V -> V -> Prop), vlaws O eqv ->
+  forall (alg : algorithm) (W : xworld V) (sfn : string -> list V -> index -> V),
+  world_ok O eqv alg W sfn ->
+  forall fuel calls0 rs os s1 fuel' tb name ixs vs s2,
+    run_all O alg (compile alg) W fuel (init_state alg W calls0) rs = (os, s1) ->
+    Forall (fun o => o <> OutOfFuel) os ->
+    run_multi O alg (compile alg) W fuel' s1 tb name ixs = (Ok vs, s2) ->
+    Forall2 (fun ix v => forall f w, interp O alg (SW O W sfn) f (KN name) ix = Some w -> eqv (den O v) w) ixs vs.
+Proof. exact L_C09_sound_slices. Qed.
+Print Assumptions C09_sound_slices.
+
+(** a slice of the deletable intermediate X of the non-Hermitian algorithm: all three orders are returned *)
+Example C09_sound_slices_example :
+  exists a b c, fst (run_multi z_ops nonhermitian_alg (compile nonhermitian_alg) (z_world no_faults) 60
+                       (init_state nonhermitian_alg (z_world no_faults) 0) TTab "X" [(0, 1, [0]); (0, 1, [1]); (0, 1, [2])])
+                = Ok [a; b; c].
+Proof. do 3 eexists. vm_compute. reflexivity. Qed.
+
 (** non-vacuity: the shipped non-Hermitian algorithm on an integer Hamiltonian; the request
     at second order terminates, the specification is defined and both give the same value *)
 Example C09_sound_example :
